@@ -308,6 +308,42 @@ def choice_model_holds(np, rng):
     return True
 
 
+def record_mult(np, StateManager, Resampler, sizes, blobs, n, seed, w):
+    """One trace of the real Resampler.run(resample='mult'): -> (case for TLC, report info, raised?)."""
+    sm, N = build_state(np, StateManager, sizes, blobs)
+    w = np.asarray(w, dtype=float)
+    rs = Resampler(state=sm, n_particles=n, resample="mult", clusterer=None, clustering=False, have_blobs=blobs)
+    np.random.seed(seed)
+    snap = np.random.get_state()
+    try:
+        rs.run(w.copy())
+        err = False
+    except Exception as ex:
+        err, exc = True, repr(ex)
+    post = np.random.get_state()
+    regen = np.random.RandomState()
+    regen.set_state(snap)
+    r = regen.random_sample(n)  # the uniforms the draw consumed, regenerated from the snapshot
+    consumed_as_modelled = same_rng_state(regen.get_state(), post)
+    cdf = np.cumsum(w)
+    cdf = cdf / cdf[-1]
+    rk = ranks_of(list(r) + list(cdf))
+    zero = frozenset(i + 1 for i, v in enumerate(w) if v == 0.0)
+    info = dict(kind="mult", sizes=list(sizes), blobs=blobs, n=n, seed=seed, w=[float(v) for v in w],
+                w_hex=[float(v).hex() for v in w], uniforms=[float(v) for v in r])
+    if err:
+        case = dict(n=n, nw=N, zero=zero, r=tuple(rk[v] for v in r), cdf=tuple(rk[v] for v in cdf), lookup=False,
+                    out=(), err=True, rows=())
+        info["got"] = exc
+    else:
+        rows = decode_rows(np, sm.get_current(), blobs)
+        got = rows.pop("u0")
+        case = dict(n=n, nw=N, zero=zero, r=tuple(rk[v] for v in r), cdf=tuple(rk[v] for v in cdf),
+                    lookup=bool(consumed_as_modelled), out=got, err=False, rows=tuple(rows.values()))
+        info["got"] = list(got)
+    return case, info, err
+
+
 # --------------------------------------------------------------------------- main
 def main():
     ck = core.Check("C06", "model_checking", description=__doc__)
@@ -334,21 +370,25 @@ def main():
     if ck.args.replay:
         with open(ck.args.replay) as f:
             rp = json.load(f)["replay"]
-        if "w_hex" not in rp:
-            print("replay file carries no direct input (trace-level case); rerun the check with the recorded seed")
-            sys.exit(2)
         w = [float.fromhex(h) for h in rp["w_hex"]]
-        out, err, _ = call_systematic(np, tools, rp["n"], w, float.fromhex(rp["u0_hex"]))
-        print(f"systematic_resample(n={rp['n']}, w={w}, u0={float.fromhex(rp['u0_hex'])!r}) -> "
-              f"{'raised ' + out if err else [i - 1 for i in out]}")
-        zero = {i + 1 for i, v in enumerate(w) if v == 0.0}
-        case = dict(n=rp["n"], nw=len(w), zero=frozenset(zero), out=() if err else out, err=err, rows=())
-        obs = obs_module([], [case], [])
+        if rp.get("kind") == "mult":
+            case, info, err = record_mult(np, StateManager, Resampler, rp["sizes"], rp["blobs"], rp["n"], rp["seed"], w)
+            print(f"Resampler.run(resample='mult') n={rp['n']} seed={rp['seed']} w={w} -> {info['got']}")
+            obs = obs_module([], [], [case])
+        else:
+            out, err, _ = call_systematic(np, tools, rp["n"], w, float.fromhex(rp["u0_hex"]))
+            print(f"systematic_resample(n={rp['n']}, w={w}, u0={float.fromhex(rp['u0_hex'])!r}) -> "
+                  f"{'raised ' + out if err else [i - 1 for i in out]}")
+            if "Q" in rp:  # an input of Resample.tla: all clauses
+                obs = obs_module([dict(n=rp["n"], a=tuple(rp["a"]), Q=rp["Q"], k=rp["k"], out=() if err else out, err=err)], [], [])
+            else:  # input that exists only as doubles: shape clauses
+                zero = frozenset(i + 1 for i, v in enumerate(w) if v == 0.0)
+                obs = obs_module([], [dict(n=rp["n"], nw=len(w), zero=zero, out=() if err else out, err=err, rows=())], [])
         res = tlc.run_tlc("ResampleTrace", TRACE_CFG, dump=True, extra_modules={"ResampleObs.tla": obs})
         fails = [st["fails"] for st in iter_done_states(res.dump_path)]
         res.cleanup()
         print("clauses failed:", sorted(fails[0]) if fails else "?")
-        sys.exit(1 if fails and fails[0] else 0)
+        sys.exit(1 if fails and fails[0] else (0 if fails else 2))
 
     # ---- 1. the specification: intended variant, exhaustive
     res = tlc.run_tlc("Resample", cfg(consts, "intended", INVARIANTS), dump=True, coverage=True)
@@ -385,6 +425,7 @@ def main():
         matched_pool = []
         script_unused = 0
         dyadic_sys = []
+        sampled = set()
         for st in iter_done_states(res.dump_path):
             if st["fam"] == "mult":
                 spec_mult += 1
@@ -421,9 +462,11 @@ def main():
                     dyadic_sys.append((st, w, u0))
             else:
                 to_judge.append((case, info))
-            if len(ck.samples) < 3 and n >= 2 and len(a) >= 3 and (
-                    (a[0] == 0 and k == 0) or (st["fam"] == "tol" and sum(a) < Q and k == 2 * Q - 2 and len(ck.samples) == 1)
-                    or (a[-1] == 0 and k % 2 == 1 and len(ck.samples) == 2)):
+            cat = ("zero-first-weight-offset0" if a[0] == 0 and k == 0 else
+                   "sum-below-one-offset-just-below-one" if st["fam"] == "tol" and sum(a) < Q and k == 2 * Q - 2 else
+                   "trailing-zero-midpoint" if a[-1] == 0 and k % 2 == 1 and st["fam"] == "exact" else None)
+            if cat and cat not in sampled and n >= 2 and len(a) >= 3:
+                sampled.add(cat)
                 ck.sample({"family": st["fam"], "n": n, "weights": w, "u0": u0, "spec_idx0": [i - 1 for i in want_out],
                            "code": out if err else [i - 1 for i in out]})
         if replayed and script_unused == replayed:
@@ -545,41 +588,13 @@ def main():
         for ci in range(nmult):
             sizes = list(sizes_pool[rng.randint(0, len(sizes_pool))])
             blobs = bool(rng.randint(0, 2))
-            sm, N = build_state(np, StateManager, sizes, blobs)
-            w = gen_weights(np, rng, N)
+            w = gen_weights(np, rng, sum(sizes))
             n = int(rng.randint(1, 9))
             seed = int(rng.randint(0, 2 ** 31 - 1))
-            rs = Resampler(state=sm, n_particles=n, resample="mult", clusterer=None, clustering=False, have_blobs=blobs)
-            np.random.seed(seed)
-            snap = np.random.get_state()
-            try:
-                rs.run(w.copy())
-                err = False
-            except Exception as ex:
-                err, exc = True, repr(ex)
-            post = np.random.get_state()
-            regen = np.random.RandomState()
-            regen.set_state(snap)
-            r = regen.random_sample(n)
-            consumed_as_modelled = same_rng_state(regen.get_state(), post)
-            cdf = np.cumsum(w)
-            cdf = cdf / cdf[-1]
-            rk = ranks_of(list(r) + list(cdf))
-            zero = frozenset(i + 1 for i, v in enumerate(w) if v == 0.0)
-            info = dict(kind="mult", sizes=sizes, blobs=blobs, n=n, seed=seed, w=[float(v) for v in w])
-            if err:
-                case = dict(n=n, nw=N, zero=zero, r=tuple(rk[v] for v in r), cdf=tuple(rk[v] for v in cdf), lookup=False,
-                            out=(), err=True, rows=())
-                info["got"] = exc
-            else:
-                rows = decode_rows(np, sm.get_current(), blobs)
-                got = rows.pop("u0")
-                if not consumed_as_modelled:
-                    lookup_unverifiable += 1
-                case = dict(n=n, nw=N, zero=zero, r=tuple(rk[v] for v in r), cdf=tuple(rk[v] for v in cdf),
-                            lookup=bool(consumed_as_modelled), out=got, err=False, rows=tuple(rows.values()))
-                info["got"] = list(got)
-                info["uniforms"] = [float(v) for v in r]
+            case, info, err = record_mult(np, StateManager, Resampler, sizes, blobs, n, seed, w)
+            zero, got = case["zero"], case["out"]
+            if not err and not case["lookup"]:
+                lookup_unverifiable += 1
             if len(zero) >= 1 or sum(1 for v in w if v > 0) >= 2:
                 mult_nontrivial += 1
             mult_cases.append((case, info))
